@@ -15,6 +15,7 @@ import (
 	"runtime/debug"
 	"strings"
 	"sync"
+	"sync/atomic"
 	"testing"
 	"time"
 
@@ -273,6 +274,7 @@ func locksFree(c *network.OneConnection) error {
 	}
 	for _, m := range globalMutexes() {
 		if !m.mu.TryLock() {
+			wedged.Store(true) // every later case would block on it
 			return fmt.Errorf("%s is still held", m.name)
 		}
 		m.mu.Unlock()
@@ -318,9 +320,15 @@ func guarded(what string, f func()) error {
 	case err := <-done:
 		return err
 	case <-time.After(hangBound):
+		wedged.Store(true)
 		return fmt.Errorf("%s did not return within %s", what, hangBound)
 	}
 }
+
+// wedged is set once a call has exceeded the hang bound: its goroutine cannot be stopped and may hold
+// locks or spin, so nothing run afterwards in this process means anything.  The case that hung is
+// reported as it is (no shrinking: every further attempt would cost another hang bound).
+var wedged atomic.Bool
 
 func trimStack(b []byte) string {
 	s := string(b)
@@ -634,6 +642,9 @@ func TestHandlerSequences(t *testing.T) {
 	cp := startCapture()
 	defer cp.stop()
 	pbt.Check(t, pbt.Cfg{Name: "handler_seq", Quick: 100000, Thorough: 3000000}, func(r *pbt.Run) {
+		if wedged.Load() {
+			return
+		}
 		cs := genSeqCase(r.T)
 		r.Case(cs)
 		classify(r, cs)
